@@ -269,7 +269,7 @@ ROUND6 = {
  "C04": ("", "Round 6: the decision to re-parse the stage-1 messages uses the pattern count taken before the pattern analysis (R4.15); zone values reach the readers under their own parameter (R4.16); within a notation the full-offset rows accept every month spelling of the hour-only row (R4.17); a start-anchored row with a zone group searches at least as far as its own longest match (R4.18); a month group with dotted abbreviations has them for every month (R4.19)."),
  "C05": ("", "Round 6: a buffered writer over the unpacked temporary file is flushed, and the result looked at, before success is reported (R5.15; lifted by C09 R9.6 and C10 R10.6); the composite archive|member name is split at its last separator (R5.16); BlockReader::filesz() returns the decoded size for every decoded container, for text and record files alike (R5.17)."),
  "C06": ("; effect analysis of every loop and iterator chain over a randomly seeded HashMap/HashSet", "Round 6: no output and no choice depends on the iteration order of a randomly seeded hash container (R6.12, whole program)."),
- "C07": ("", "Round 6: Summary accessors that panic on the Dummy placeholder are called only behind a failed is_dummy() test (R7.15); the emergency counter of the journal field enumeration is incremented on every way round the loop (R7.16); allocation sizes are followed through max() and back to numbers decoded from the file's own bytes (R7.10)."),
+ "C07": ("", "Round 6: Summary accessors that panic on the Dummy placeholder are called only behind a failed is_dummy() test (R7.15); the emergency counter of the journal field enumeration is incremented on every way round the loop (R7.16); allocation sizes are followed through max() and back to numbers decoded from the file's own bytes (R7.10); path expansion never unwraps the result of opening a file (R7.17)."),
  "C08": ("", "Round 6: the candidate record layouts are walked in an order that does not change from run to run (R8.17 lift of C06 R6.12); layout arms of different OS families name the ut_type through different tables (R8.18); record files are sized by their decoded length in every container (R8.7 <- C05 R5.17); every print_fixedstruct variant returns Ok only with its buffer written out (R8.19); every label of a rendered record that is a field name is followed by a read of that field (R8.20); the by-size tests of filesz_to_types may be a table-driven loop (R8.16)."),
  "C09": ("; effect analysis of the field enumeration loops (borrowed data across FFI calls), image of the errno mapping, foreign-item signatures against the hand-written API struct", "Round 6: the DateTime stored in a rendered entry derives from the receive time only (R9.11); no borrowed field bytes are kept across calls of the field enumeration (R9.12); the enumeration bound is above journald's per-entry field limit (R9.13); every ErrorKind the reader compares with can be produced by its errno mapping (R9.14); every function pointer of the libsystemd API struct takes the parameters bindgen declares for that name (R9.15)."),
  "C10": ("", "Round 6: the window bounds are the ones the user wrote (R10.9 <- C03 R3.10); the flush and split rules of C05 at the extraction sites (R10.6 <- R5.15, R5.16); a decoded record goes round the record loop only through the index, a window verdict or a decode error (R10.3 clause)."),
